@@ -40,7 +40,7 @@ def snapshot_diff(pre: dict, post: dict) -> list[tuple[str, str]]:
                 out.append((f"arrays:{name}:shape", f"{x[1]} -> {y[1]}"))
             else:
                 out.append((f"arrays:{name}", "bytes differ"))
-    if pre["cell"] != post["cell"]:
+    if not np.array_equal(pre["cellarr"], post["cellarr"]):  # (numerically: -0.0 and 0.0 are the same cell)
         out.append(("cell", f"{pre['cellarr'].tolist()} -> {post['cellarr'].tolist()}"))
     if pre["pbc"] != post["pbc"]:
         out.append(("pbc", ""))
